@@ -107,13 +107,33 @@ def escape(ctx, model, lm):
                 and st.value.func.attr == "replace" and len(st.value.args) == 2 \
                 and all(isinstance(a, ast.Constant) for a in st.value.args):
             table.append((st.value.args[0].value, st.value.args[1].value))
+    # the same table kept at module level and applied in a loop: for a, b in TABLE: x = x.replace(a, b)
+    for st in m.node.body:
+        if isinstance(st, ast.For) and isinstance(st.iter, ast.Name) and isinstance(st.target, ast.Tuple) \
+                and len(st.target.elts) == 2 and len(st.body) == 1 and isinstance(st.body[0], ast.Assign):
+            call = st.body[0].value
+            rows = m.module.globals_assigned.get(st.iter.id)
+            names = [norm(x) for x in st.target.elts]
+            if isinstance(call, ast.Call) and isinstance(call.func, ast.Attribute) and call.func.attr == "replace" \
+                    and [norm(a) for a in call.args] == names and norm(call.func.value) == norm(st.body[0].targets[0]) \
+                    and isinstance(rows, (ast.Tuple, ast.List)) and all(
+                        isinstance(r, (ast.Tuple, ast.List)) and len(r.elts) == 2
+                        and all(isinstance(x, ast.Constant) for x in r.elts) for r in rows.elts):
+                table += [(r.elts[0].value, r.elts[1].value) for r in rows.elts]
     if len(table) < 3:
         ctx.broken("ValueString.__repr__", "replacement table not found")
     ctx.check("C08.escape", m, None, table[0][0] == "\\",
               f"the first replacement is {table[0]!r}, not the backslash: escapes produced by earlier replacements "
               f"would be escaped again", expr="backslash first", site="ValueString.__repr__: backslash escaped first")
     ret = m.node.body[-1]
-    ok = isinstance(ret, ast.Return) and norm(ret.value) in ('f"\'{result}\'"', "\"'\" + result + \"'\"")
+    ok = False
+    if isinstance(ret, ast.Return) and isinstance(ret.value, ast.JoinedStr):
+        parts = ret.value.values
+        ok = len(parts) == 3 and all(isinstance(parts[k], ast.Constant) and parts[k].value == "'" for k in (0, 2)) \
+            and isinstance(parts[1], ast.FormattedValue) and isinstance(parts[1].value, ast.Name)
+    elif isinstance(ret, ast.Return) and isinstance(ret.value, ast.BinOp):
+        t_ = norm(ret.value)
+        ok = t_.startswith("\"'\" + ") and t_.endswith(" + \"'\"")
     ctx.check("C08.escape", m, None, ok, "strings are not rendered in single quotes", expr="single quotes",
               site="ValueString.__repr__: '...'")
     # the single-quote automaton
